@@ -222,8 +222,11 @@ func ruleTrackAdd(c *Ctx) {
 	} else {
 		c.site(1)
 		name := fname(fn)
-		adds := callsTo(fn, "midix.Track.Add")
-		prop := callsTo(fn, "midix.Track.AddTickDelta")
+		// the delivery and the propagation may sit in extracted helpers: look at the whole region of TrackSet.Add
+		tr := c.plainTracer()
+		region := c.regionCalls(fn, nil)
+		adds := findRegion(region, func(ci ssa.CallInstruction) bool { return calleeName(ci.Common()) == "midix.Track.Add" })
+		prop := findRegion(region, func(ci ssa.CallInstruction) bool { return calleeName(ci.Common()) == "midix.Track.AddTickDelta" })
 		problem := ""
 		switch {
 		case len(adds) != 1:
@@ -231,51 +234,61 @@ func ruleTrackAdd(c *Ctx) {
 		case len(prop) != 1:
 			problem = "expected exactly one propagation x.AddTickDelta(delta)"
 		default:
-			add, pr := adds[0].(*ssa.Call), prop[0].(*ssa.Call)
+			add, pr := adds[0], prop[0]
+			addI, prI := linstr{add.call, add.chain}, linstr{pr.call, pr.chain}
 			trackNo, op := fn.Params[1], fn.Params[2]
+			isRoot := func(l lval, p *ssa.Parameter) bool {
+				l = tr.trace(l)
+				return len(l.chain) == 0 && l.v == ssa.Value(p)
+			}
+			at := func(rc rcall, v ssa.Value) lval { return tr.trace(lval{v, rc.fn, rc.chain}) }
 			// delivered op is the parameter, to list[trackNo]
-			if add.Call.Args[1] != ssa.Value(op) {
+			if !isRoot(at(add, add.call.Common().Args[1]), op) {
 				problem = "the delivered op is not the parameter"
 			}
-			if ia := indexOfLoad(add.Call.Args[0]); ia == nil || ia.Index != ssa.Value(trackNo) {
+			recv := at(add, add.call.Common().Args[0])
+			if ia := indexOfLoad(recv.v); ia == nil || !isRoot(recv.with(ia.Index), trackNo) {
 				problem = "the op is not delivered to list[trackNo]"
 			}
+			if inLoopAnyLevel(addI) {
+				problem = "the op is delivered inside a loop"
+			}
 			// propagated delta: a load of op.TickDelta that precedes the delivery
-			ld, ok := pr.Call.Args[1].(*ssa.UnOp)
+			dl := at(pr, pr.call.Common().Args[1])
+			ld, ok := dl.v.(*ssa.UnOp)
 			if !ok || ld.Op != token.MUL {
 				problem = "the propagated delta is not a plain read of op.TickDelta"
-			} else if n, base, ok := fieldName(ld.X); !ok || n != "TickDelta" || base != ssa.Value(op) {
+			} else if n, base, ok := fieldName(ld.X); !ok || n != "TickDelta" || !isRoot(dl.with(base), op) {
 				problem = "the propagated delta is not op.TickDelta"
-			} else if !dominatesInstr(ld, add) {
+			} else if !regionDominates(linstr{ld, dl.chain}, addI) {
 				problem = "op.TickDelta is read after t.Add(op) has folded the track's own delay into it: the other tracks receive this track's delay too"
 			}
 			// propagation inside a loop over the whole list, skipping exactly index == trackNo
 			if problem == "" {
-				if !inLoop(pr.Block()) {
+				loop, level := loopAround(prI)
+				if loop == nil {
 					problem = "the delta is not propagated in a loop over the tracks"
 				} else {
-					recvIdx := indexOfLoad(pr.Call.Args[0])
-					if recvIdx == nil {
+					loc := lval{nil, prI.at(level).Parent(), prI.chain[:level]}
+					rl := at(pr, pr.call.Common().Args[0])
+					recvIdx := indexOfLoad(rl.v)
+					if recvIdx == nil || !sameChain(rl.chain, loc.chain) {
 						problem = "the receiver of AddTickDelta is not an element of the track list"
 					} else {
-						idx := recvIdx.Index
-						side, ok := c.branchSide(pr.Block(), func(v ssa.Value) bool {
-							b, ok := v.(*ssa.BinOp)
-							return ok && b.Op == token.EQL && ((b.X == idx && b.Y == ssa.Value(trackNo)) || (b.Y == idx && b.X == ssa.Value(trackNo)))
-						})
-						if !ok {
-							// `if i != trackNo { ... }` form
-							side2, ok2 := c.branchSide(pr.Block(), func(v ssa.Value) bool {
-								b, ok := v.(*ssa.BinOp)
-								return ok && b.Op == token.NEQ && ((b.X == idx && b.Y == ssa.Value(trackNo)) || (b.Y == idx && b.X == ssa.Value(trackNo)))
-							})
-							if !ok2 || !side2 {
-								problem = "the propagation is not guarded by index != trackNo"
+						idx := tr.trace(rl.with(recvIdx.Index))
+						known, equal := false, false
+						for _, g := range guardsAlong(prI, level) {
+							if eq, ok := tr.eqTest(g, idx, func(l lval) bool { return isRoot(l, trackNo) }); ok {
+								known, equal = true, eq
 							}
-						} else if side {
+						}
+						switch {
+						case !known:
+							problem = "the propagation is not guarded by index != trackNo"
+						case equal:
 							problem = "the delta is added to the delivering track instead of the others (condition inverted)"
 						}
-						if problem == "" && !c.loopCoversSlice(pr.Block()) {
+						if problem == "" && !c.loopCoversSlice(prI.at(level).Block()) {
 							problem = "the propagation loop does not range over the whole track list"
 						}
 					}
@@ -860,22 +873,25 @@ func (c *Ctx) checkRounding(fn *ssa.Function, v ssa.Value) string {
 
 // checkValueSum: in play.Write the argument of Rest / Note is a phi accumulating v.Float() over a range loop on instance.Values starting at 0.
 func (c *Ctx) checkValueSum(w *ssa.Function) string {
-	var vals []ssa.Value
-	for _, ci := range callsIn(w) {
-		cc := ci.Common()
+	// the duration may be computed by an extracted helper: resolve the argument to where it is produced
+	tr := &tracer{c: c, stop: func(f *ssa.Function) bool { return f.Object() != nil && f.Object().Exported() }}
+	region := c.regionCalls(w, func(f *ssa.Function) bool { return !f.Object().Exported() })
+	var vals []lval
+	for _, rc := range region {
+		cc := rc.call.Common()
 		if cc.IsInvoke() && typeName(cc.Value.Type()) == "midix.Writer" && (cc.Method.Name() == "Rest" || cc.Method.Name() == "Note") {
-			vals = append(vals, cc.Args[0])
+			vals = append(vals, tr.trace(lval{cc.Args[0], rc.fn, rc.chain}))
 		}
 	}
 	if len(vals) < 2 {
 		return "calls to Writer.Rest and Writer.Note not found"
 	}
 	for _, v := range vals {
-		if v != vals[0] {
+		if !v.same(vals[0]) {
 			return "Rest and Note are given different duration values"
 		}
 	}
-	phi, ok := vals[0].(*ssa.Phi)
+	phi, ok := vals[0].v.(*ssa.Phi)
 	if !ok {
 		return "the duration is not an accumulator over the instance's values (e.g. only one value is used)"
 	}
